@@ -759,6 +759,130 @@ def gen_abi():
 
 # --------------------------------------------------------------------------- function bodies
 
+# rmp::Marker variants and their byte codes (the MessagePack specification; `Marker::from_u8` is rmp's)
+MARKER_CODE = {"Null": 0xc0, "False": 0xc2, "True": 0xc3, "F32": 0xca, "F64": 0xcb, "U8": 0xcc, "U16": 0xcd,
+               "U32": 0xce, "U64": 0xcf, "I8": 0xd0, "I16": 0xd1, "I32": 0xd2, "I64": 0xd3, "Str8": 0xd9,
+               "Str16": 0xda, "Str32": 0xdb, "Array16": 0xdc, "Array32": 0xdd, "Map16": 0xde, "Map32": 0xdf}
+READER_WIDTH = {"u8": 1, "i8": 1, "u16": 2, "i16": 2, "u32": 4, "i32": 4, "f32": 4, "u64": 8, "i64": 8, "f64": 8}
+
+
+def gen_markers():
+    """Gen/Markers.lean: the marker dispatch of `LazyValueRef::new` (provider/src/read/lazy_value_ref.rs)
+    arm by arm, and the widths of the cursor's fixed-width readers"""
+    src = strip_comments(strip_tests(read("provider/src/read/lazy_value_ref.rs")))
+    # cursor readers: bounds check + big-endian decode of exactly N bytes + advance by N
+    for ty, n in READER_WIDTH.items():
+        m = re.search(r"fn\s+read_%s\s*\(&mut self\)\s*->\s*Result<%s,\s*ErrorCode>\s*\{(.*?)\n    \}" % (ty, ty), src, flags=re.S)
+        if not m:
+            raise ExtractError("Cursor::read_%s not found" % ty)
+        body = re.sub(r"\s+", "", m.group(1))
+        if "ifself.position+%d>self.length{returnErr(ErrorCode::ReadError);}" % n not in body:
+            raise ExtractError("Cursor::read_%s: bounds check is not `position + %d > length`" % (ty, n))
+        if "self.position+=%d;" % n not in body:
+            raise ExtractError("Cursor::read_%s does not advance by %d" % (ty, n))
+        if n == 1:
+            ok = ("self.bytes[self.position]" in body) and (ty == "u8" or "asi8" in body)
+        else:
+            idx = ",".join("bytes[%d]" % i for i in range(n))
+            ok = ("%s::from_be_bytes([%s" % (ty, idx)) in body.replace(",]", "]") or ("%s::from_be_bytes([%s])" % (ty, idx)) in body.replace(",]", "]")
+        if not ok:
+            raise ExtractError("Cursor::read_%s does not decode %d big-endian bytes" % (ty, n))
+    m = re.search(r"fn\s+read_marker\s*\(&mut self\)[^{]*\{(.*?)\n    \}", src, flags=re.S)
+    if not m or "ifself.position>=self.length{returnErr(ErrorCode::ReadError);}" not in re.sub(r"\s+", "", m.group(1)) \
+            or "Marker::from_u8(self.bytes[self.position])" not in re.sub(r"\s+", "", m.group(1)):
+        raise ExtractError("Cursor::read_marker changed shape")
+    # the dispatch
+    m = re.search(r"let\s+marker\s*=\s*cursor\.read_marker\(\)\?;\s*match\s+marker\s*\{", src)
+    if not m:
+        raise ExtractError("LazyValueRef::new: `match marker` not found")
+    depth, i = 1, m.end()
+    while depth and i < len(src):
+        depth += {"{": 1, "}": -1}.get(src[i], 0)
+        i += 1
+    body = src[m.end():i - 1]
+    arms, pos = [], 0
+    for am in re.finditer(r"(?:^|\n)\s*(Marker::(\w+)(?:\((\w+)\))?|_)\s*=>", body):
+        arms.append([am.group(2) or "_", am.group(3), am.end()])
+    for k, a in enumerate(arms):
+        end = arms[k + 1][2] - len(re.search(r"(Marker::\w+(?:\(\w+\))?|_)\s*=>$", body[:arms[k + 1][2]]).group(0)) if k + 1 < len(arms) else len(body)
+        a.append(re.sub(r"\s+", "", body[a[2]:end]).rstrip(","))
+    table = {}
+    for name, binder, _, text in arms:
+        def number(reader_ty, conv):
+            return "numHdr b p %d %s" % (READER_WIDTH[reader_ty], conv)
+        if name == "_":
+            if text != "Err(ErrorCode::ReadError)":
+                raise ExtractError("the catch-all marker arm is no longer a read error")
+            continue
+        if name in ("Null", "False", "True"):
+            want = {"Null": "Ok((Self::Null,Some(cursor.position)))", "False": "Ok((Self::Bool(false),Some(cursor.position)))",
+                    "True": "Ok((Self::Bool(true),Some(cursor.position)))"}[name]
+            if text != want:
+                raise ExtractError("marker arm %s changed" % name)
+            table[name] = {"Null": "some (.scalar .null p)", "False": "some (.scalar (.bool false) p)", "True": "some (.scalar (.bool true) p)"}[name]
+        elif name in ("FixPos", "FixNeg"):
+            if text != "Ok((Self::Number(%sasf64),Some(cursor.position)))" % binder:
+                raise ExtractError("marker arm %s changed" % name)
+            table[name] = ("some (.scalar (.num (F64.ofNat m)) p)" if name == "FixPos"
+                           else "some (.scalar (.num (F64.ofInt (toSigned 8 m))) p)")
+        elif name in ("U8", "U16", "U32", "U64", "I8", "I16", "I32", "I64", "F32", "F64"):
+            ty = name.lower()
+            num = "n" if name == "F64" else "nasf64"
+            if text != "cursor.read_%s().map(|n|(Self::Number(%s),Some(cursor.position)))" % (ty, num):
+                raise ExtractError("marker arm %s changed" % name)
+            if name == "F32":
+                table[name] = number(ty, "F64.ofF32")
+            elif name == "F64":
+                table[name] = number(ty, "id")
+            elif name[0] == "U":
+                table[name] = number(ty, "F64.ofNat")
+            else:
+                table[name] = number(ty, "(fun v => F64.ofInt (toSigned %d v))" % (8 * READER_WIDTH[ty]))
+        elif name in ("FixStr", "Str8", "Str16", "Str32", "FixMap", "Map16", "Map32", "FixArray", "Array16", "Array32"):
+            kind = "str" if "Str" in name else ("map" if "Map" in name else "arr")
+            fixed = name.startswith("Fix")
+            lenexpr = ("letlen=%sasusize;" % binder) if fixed else \
+                ("letlen=cursor.read_u%s().map(|n|nasusize)?;" % {"8": "8", "16": "16", "32": "32"}[re.sub(r"\D", "", name)])
+            guard = {"str": "iflen>cursor.length-cursor.position{returnErr(ErrorCode::ReadError);}",
+                     "map": "iflen>(cursor.length-cursor.position)/2{returnErr(ErrorCode::ReadError);}",
+                     "arr": "iflen>(cursor.length-cursor.position){returnErr(ErrorCode::ReadError);}"}[kind]
+            result = {"str": "Ok((Self::String(StringRef{ptr:cursor.position,len,}),Some(cursor.position+len),))",
+                      "map": "Ok((Self::Object(ObjectRef{len,processed_elements:Vec::with_capacity_in(len,bump),end_position_of_last_processed_element:cursor.position,}),None,))",
+                      "arr": "Ok((Self::Array(ArrayRef{len,processed_elements:Vec::with_capacity_in(len,bump),end_position_of_last_processed_element:cursor.position,}),None,))"}[kind]
+            if text != "{" + lenexpr + guard + result + "}":
+                raise ExtractError("marker arm %s changed: %s" % (name, text[:120]))
+            hdr = {"str": "strHdr", "map": "mapHdr", "arr": "arrHdr"}[kind]
+            if fixed:
+                base = {"FixStr": "0xa0", "FixMap": "0x80", "FixArray": "0x90"}[name]
+                table[name] = "%s b p (m - %s)" % (hdr, base)
+            else:
+                w = int(re.sub(r"\D", "", name)) // 8
+                table[name] = "(match beRead b p %d with | none => none | some l => %s b (p + %d) l)" % (w, hdr, w)
+        else:
+            raise ExtractError("marker arm %s is not in the supported subset (the model treats it as unsupported)" % name)
+    need = set(MARKER_CODE) | {"FixPos", "FixNeg", "FixStr", "FixMap", "FixArray"}
+    if set(table) != need:
+        raise ExtractError("marker arms differ from the model's: missing %s extra %s" % (sorted(need - set(table)), sorted(set(table) - need)))
+    out = ["-- REGENERATED by /verif/extract/extract.py from the marker dispatch of LazyValueRef::new; do not edit",
+           "import SfVerif.Model.MsgPack", "namespace SfVerif.Gen", "open SfVerif",
+           "/-- markers 0xc0 … 0xdf, arm by arm as in the source -/",
+           "def hdrTaggedGen (b : Bytes) (p m : Nat) : Option Hdr :=", "  match m with"]
+    for name, code in sorted(MARKER_CODE.items(), key=lambda kv: kv[1]):
+        out.append("  | 0x%02x => %s  -- Marker::%s" % (code, table[name], name))
+    out.append("  | _ => none")
+    out += ["/-- the whole dispatch (rmp's `Marker::from_u8` ranges for the fix markers) -/",
+            "def hdrOfMarkerGen (b : Bytes) (p m : Nat) : Option Hdr :=",
+            "  if m < 0xc0 then",
+            "    (if m < 0x80 then %s" % table["FixPos"],
+            "     else if m < 0x90 then %s" % table["FixMap"],
+            "     else if m < 0xa0 then %s" % table["FixArray"],
+            "     else %s)" % table["FixStr"],
+            "  else if 0xe0 ≤ m then %s" % table["FixNeg"],
+            "  else hdrTaggedGen b p m",
+            "end SfVerif.Gen"]
+    return "\n".join(out) + "\n"
+
+
 FNS_HEADER = ["-- REGENERATED by /verif/extract/extract.py (rs2lean) from function bodies in /repo; do not edit",
               "import SfVerif.Gen.Consts", "import SfVerif.Gen.Enums", "namespace SfVerif.Gen"]
 
@@ -881,7 +1005,8 @@ def main():
         report["errors"].append("consts/enums: %s" % e)
     for fname, prefix, gen in [("FnsNanBox.lean", "fns-nanbox", lambda: gen_fns_nanbox(re.findall(r"^def ([A-Z0-9_]+) ", consts or "", flags=re.M))),
                                ("FnsLogs.lean", "fns-logs", gen_fns_logs),
-                               ("FnsState.lean", "fns-state", gen_fns_state)]:
+                               ("FnsState.lean", "fns-state", gen_fns_state),
+                               ("Markers.lean", "markers", gen_markers)]:
         try:
             text = gen()
             if write_if_changed(fname, text):
